@@ -1125,6 +1125,34 @@ func main() {
 			}
 			flush()
 		}
+		// payloads with leading zero bytes on streams starting with zero bytes: big-endian
+		// coordinates whose byte strings are shorter than the coordinate length
+		{
+			nz := 16
+			if e0.model == "ed" {
+				nz = 4
+			}
+			for i := 0; i < nz*mult; i++ {
+				r := rng.Fork()
+				n++
+				L := []int{el, el - 1, el + 3, 1, el / 2, el - 2, 2, el}[i%8]
+				data := r.Bytes(max(L, 0))
+				for j := 0; j < len(data) && j < 1+i%3; j++ {
+					data[j] = 0
+				}
+				if i%8 == 7 {
+					for j := range data {
+						data[j] = 0
+					}
+				}
+				buf := mkTape(r, "xof", e0.cand)
+				for j := 0; j < (1+i%3)*e0.cand; j++ {
+					buf[j] = 0
+				}
+				runAll(data, false, "zero+leading-zero-data", buf, true)
+			}
+			flush()
+		}
 		// candidates at the boundaries of every comparison the embedding code makes: the field
 		// prime, the group order, 0, powers of two, (non-)canonical encodings of small-order points
 		{
@@ -1174,6 +1202,30 @@ func main() {
 				}
 				res, ok := c.embedOracle(e0, nil, false, buf, "length-field")
 				rep.Count(fmt.Sprintf("lengthfield/%s/%d/%s", e0.name, lf, vh.Hex(buf[:64])), true)
+				if ok && !o.Search {
+					items = append(items, res.coq(nil, buf, e0.cand))
+				}
+			}
+			// the same with leading zero bytes in every candidate (short big-endian strings)
+			for i, lf := range []int{el, el - 1, 5, el, 12, el + 1} {
+				r := rng.Fork()
+				buf := mkTape(r, "xof", e0.cand)
+				z := []int{4, 16, e0.cand - 4, e0.cand - 8, 1, 8}[i] // number of leading zero bytes
+				for k := 0; (k+1)*e0.cand <= len(buf); k++ {
+					for j := 0; j < z && j < e0.cand-3; j++ {
+						buf[k*e0.cand+j] = 0
+					}
+					switch e0.model {
+					case "p256":
+						buf[k*e0.cand+31] = byte(lf)
+					case "bn256":
+						buf[k*e0.cand] = byte(lf)
+					case "qr":
+						buf[(k+1)*e0.cand-2], buf[(k+1)*e0.cand-1] = 0, byte(lf)
+					}
+				}
+				res, ok := c.embedOracle(e0, nil, false, buf, "length-field+leading-zeros")
+				rep.Count(fmt.Sprintf("lengthfield0/%s/%d/%d/%s", e0.name, lf, z, vh.Hex(buf[:64])), true)
 				if ok && !o.Search {
 					items = append(items, res.coq(nil, buf, e0.cand))
 				}
